@@ -38,11 +38,18 @@ func tagIfParser(doc *Parser, start *Token, arguments *Parser) (INodeTag, *Error
 	}
 
 	// Check the rest
+	afterElse := false
 	for {
 		wrapper, tagArgs, err := doc.WrapUntilTag("elif", "else", "endif")
 		if err != nil {
 			return nil, err
 		}
+		if afterElse && wrapper.Endtag != "endif" {
+			// (the else-part is the last one: Execute pairs the i-th body with the i-th
+			// condition and takes a body without condition, at the end, as the else-part)
+			return nil, tagArgs.Error("Only 'endif' may follow the 'else' of an if-tag.", nil)
+		}
+		afterElse = wrapper.Endtag == "else"
 		ifNode.wrappers = append(ifNode.wrappers, wrapper)
 
 		if wrapper.Endtag == "elif" {
